@@ -105,6 +105,14 @@ class C17(Prop):
         need_lb("name", r"strcmp\s*\(name,\s*buf\)\s*!=\s*0")
         need_lb("sort", r"sort_function_table\s*\(p\)\s*;")
         need_lb("patch_in", r"patch_in\s*\(p,")
+        # the order of the tests in load_binary, as the model has it
+        order = ["READ_CHECKSUM", "check_times (mtime, name)", "strncmp (buf, magic_id", "driver_id != bin_driver_id",
+                 "config_id != bin_config_id", "check_times (mtime, simul_efun_path)", "check_times (mtime, iname)",
+                 "strcmp (name, buf)", "check_times (mtime, buf)", "find_object_by_name (buf)",
+                 "inherited_program_newer (mtime, ob->prog)", "sort_function_table (p)", "patch_in (p,"]
+        pos = [lb.find(x) for x in order]
+        if -1 in pos or pos != sorted(pos):
+            raise X.TieBroken("load_binary:order", "the tests of load_binary are no longer in the modelled order: %s" % list(zip(order, pos)))
         need_lb("checksum", r"sum\s*!=\s*bin_sum")
         if lb.index("READ_CHECKSUM") > lb.index("check_times (mtime, name)"):
             raise X.TieBroken("load_binary:checksum-first", "the checksum is no longer verified before anything else is used")
